@@ -101,6 +101,12 @@ def _classes():
             finally:
                 ar.build_network = orig
 
+        def station_kinds(self):
+            return list(self.var.evse_kinds or ["cont"] * self.ns)
+
+        def phase_of(self, s):
+            return self.ana["phase"][s - 1]
+
         def compare_final(self, r):
             # Replay's last C02 comparison calls acnsim.aggregate_power: that one is this property's business
             try:
